@@ -262,7 +262,9 @@ func cmdCodecCheck(args []string) int {
 	keys := 0
 	dir, _ := os.MkdirTemp("", "verif-keys-")
 	defer os.RemoveAll(dir)
-	names := []string{"a", "alice@example.org", "bob.smith+otr@jabber.example.net/home", "user_1-2:3", "UPPER lower 0123456789", "x y  z", "ünïcödé@例え.jp", "semi;colon,comma=eq#hash!bang(paren)"}
+	names := []string{"a", "alice@example.org", "bob.smith+otr@jabber.example.net/home", "user_1-2:3", "UPPER lower 0123456789", "x y  z", "ünïcödé@例え.jp", "semi;colon,comma=eq#hash!bang(paren)",
+		// everything but the double quote is permitted and written as it is (no escaping)
+		"CORP\\alice", "tab\there", "ctl\x01\x7f", "zero\u200cwidth\u00a0nbsp", "bad-utf8-\xff\xfe", "line\nbreak", "'single' `back`"}
 	for i, base := range []string{"A", "B", "E", "X"} {
 		priv, rpriv := world.DSAKey(base)
 		// wire form and fingerprint input
